@@ -351,10 +351,15 @@ def create_cases():
     def harness_dyn(interp):
         ctx = interp.ctx
         conc = hs.Concretization()
-        s1, s2 = z3.BitVecs("p_a_length p_b_length", 256)
+        s0, s1, s2 = z3.BitVecs("p_earlier_length p_a_length p_b_length", 256)
+        x = z3.BitVec("x", 256)
+        # an earlier calldata on the same path (e.g. svm.createCalldata) and an equality learnt on the path
+        conc.candidates[s0] = [7, 9]
+        conc.substitution[x] = z3.BitVecVal(5, 256)
         params = [hcd.DynamicParam("a", [0, 1], s1, None), hcd.DynamicParam("b", [32], s2, None)]
         interp.call(hs.Concretization.__dict__["process_dyn_params"], [conc, params], {})
-        ctx.oblige("every registered dynamic parameter's candidate list reaches the path (keyed by its size symbol)", z3.BoolVal(conc.candidates.get(s1) == [0, 1] and conc.candidates.get(s2) == [32] and len(conc.candidates) == 2))
+        ctx.oblige("every registered dynamic parameter's candidate list reaches the path (keyed by its size symbol)", z3.BoolVal(conc.candidates.get(s1) == [0, 1] and conc.candidates.get(s2) == [32]))
+        ctx.oblige("frame: candidates of earlier calldata on the same path and learnt substitutions are kept", z3.BoolVal(conc.candidates.get(s0) == [7, 9] and len(conc.candidates) == 3 and len(conc.substitution) == 1))
 
     out.append(Case(f"{PROP}/sevm.Concretization.process_dyn_params", "two parameters", harness_dyn, sources=("halmos.sevm:Concretization.process_dyn_params",)))
     return out
